@@ -27,6 +27,10 @@ def configure():
               codecs.getincrementalencoder, codecs.getincrementaldecoder, codecs.getreader,
               codecs.getwriter):
         cc._PATCH_REGISTRATIONS.pop(f, None)
+    # (iv) builtin format(): CrossHair's patch deep-realises its argument, i.e. enumerates the values
+    # of every symbolic int reachable from an object that is merely interpolated into an f-string
+    # (e.g. str(Not(Equals(x)))). Our harnesses never format symbolic str, so CPython's format runs.
+    cc._PATCH_REGISTRATIONS.pop(format, None)
     # (iii) no symbolic clock
     for f in (_t.time, _t.time_ns, _t.monotonic, _t.monotonic_ns, _t.process_time,
               _t.process_time_ns):
